@@ -148,7 +148,10 @@ class Task:
         self.goal_timeout_ms = goal_timeout_ms
         self.branch_timeout_ms = branch_timeout_ms
         self.max_paths = max_paths
-        self.max_failures = max_failures
+        # a task whose code no longer verifies can spend two solver timeouts on every goal of every path: stop once the verdict is
+        # settled (each unproved obligation already decides the run) or the wall budget is used (reported as undecided, never as held)
+        self.max_failures = max_failures if max_failures is not None else int(os.environ.get("VERIF_MAX_FAILURES", "12"))
+        self.max_seconds = float(os.environ.get("VERIF_TASK_SECONDS", "1500"))
         self.params = dict(contract.params)
         if params:
             self.params.update(params)
@@ -313,6 +316,10 @@ class Task:
                         self.worklist = []
                         break
                     self.run_path(log)
+                    if time.time() - t0 > self.max_seconds:
+                        self.res.obs.append(ObRec(f"{self.name}/time-budget", "undecided", 0.0, f"stopped after {self.max_seconds:.0f} s"))
+                        self.worklist = []
+                        break
                     if self.max_failures is not None and sum(1 for o in self.res.obs if o.status != "proved") >= self.max_failures:
                         self.res.obs.append(ObRec(f"{self.name}/failure-budget", "undecided", 0.0, f"stopped after {self.max_failures} unproved obligations"))
                         self.worklist = []
